@@ -51,6 +51,36 @@ def gen(repo):
     cpk = fn_body(ck, "check_packs")
     offs = bool(re.search(r"blobs\.sort_unstable\(\);", cpk)) and "PackBlobOffsetMismatch" in cpk and "PackBlobTypesMismatch" in cpk \
         and bool(re.search(r"expected_offset\s*\+=\s*blob\.location\.length", cpk))
+    # which sections of an index file feed check's own lookup index, and restore's (GlobalIndex::new)
+    ext = re.findall(r"index_collector\.extend\(([^;]*)\);", cpk)
+    if len(ext) == 1 and re.fullmatch(r"index\.packs\.clone\(\)", ext[0].strip()):
+        check_marked = False
+    elif len(ext) == 1 and re.search(r"for\s*\(\s*(mut\s+)?p\s*,\s*to_delete\s*\)\s+in\s+index\.all_packs\(\)", cpk) \
+            and re.fullmatch(r"Some\(p\)|\[p\]|std::iter::once\(p\)", ext[0].strip()):
+        check_marked = True
+    elif len(ext) == 1 and re.fullmatch(r"index\.all_packs\(\)\.map\(\|\(p,\s*_\)\|\s*p\)", ext[0].strip()):
+        check_marked = True
+    else:
+        raise ExtractError("check_packs feeds its IndexCollector in an unrecognised way: %r" % ext)
+    ix = read(repo, "crates/core/src/index.rs")
+    nfc = fn_body(ix, "new_from_collector")
+    rext = re.findall(r"collector\.extend\(([^;]*)\);", nfc)
+    if len(rext) == 1 and re.fullmatch(r"index\?\.1\.packs", rext[0].strip()):
+        restore_marked = False
+    else:
+        raise ExtractError("GlobalIndex::new_from_collector feeds its IndexCollector in an unrecognised way: %r" % rext)
+    # an index file that cannot be read aborts check (`index?`) as it aborts GlobalIndex::new
+    idx_abort = bool(re.search(r"let\s+index\s*=\s*index\?\.1\s*;", cpk))
+    restore_abort = bool(re.search(r"index\?\.1", nfc))
+    # ReadSubsetOption::IdSubSet((n, m)): pack selected iff id % m == n % m
+    sub = fn_body(ck, "id_matches_n_m")
+    e = "".join(sub.split())
+    if e == "id.as_u32()%m==n%m":
+        nm_reduces = True
+    elif e == "id.as_u32()%m==n":
+        nm_reduces = False
+    else:
+        raise ExtractError("id_matches_n_m has an unrecognised body: %r" % sub.strip())
     b = lambda x: "true" if x else "false"
     out = ["(* GENERATED by props/C05/extract.py from repofile/packfile.rs and commands/check.rs - do not edit *)",
            "From Coq Require Import NArith Bool.", "Local Open Scope N_scope.",
@@ -71,7 +101,16 @@ def gen(repo):
            "Definition x_check_pack_order : bool := %s." % b(order_ok),
            "Definition x_blob_loop_running_offset : bool := %s." % b(running),
            "Definition x_unzip_unwrap : bool := %s." % b(unwrap),
+           "(* the in-memory index of check (check_packs) and of restore (GlobalIndex::new_from_collector): does it contain packs_to_delete? *)",
+           "Definition x_check_index_includes_marked : bool := %s." % b(check_marked),
+           "Definition x_restore_index_includes_marked : bool := %s." % b(restore_marked),
+           "(* an unreadable index file aborts check with Err / aborts the construction of restore's index *)",
+           "Definition x_unreadable_index_aborts_check : bool := %s." % b(idx_abort),
+           "Definition x_unreadable_index_aborts_restore : bool := %s." % b(restore_abort),
+           "(* IdSubSet((n, m)) selects a pack iff id % m == n % m (true) or id % m == n (false) *)",
+           "Definition x_subset_reduces_n : bool := %s." % b(nm_reduces),
            "(* check_packs: types and contiguous offsets over the sorted blobs *)",
            "Definition x_offsets_checked_on_sorted : bool := %s." % b(offs), ""]
-    meta = {"consts": consts, "pack_insert_sites": inserts, "roots": roots, "order_ok": order_ok}
+    meta = {"consts": consts, "pack_insert_sites": inserts, "roots": roots, "order_ok": order_ok,
+            "check_index_includes_marked": check_marked, "unreadable_index_aborts_check": idx_abort, "subset_reduces_n": nm_reduces}
     return "\n".join(out), meta
